@@ -104,6 +104,10 @@ def r02_2(chk, P, D):
                 chk.ob('R02.2', k, cons, True, s['where'], s['bound'])
                 continue
             a = T.ASSUME.get((k, anchor))
+            if a is None and s.get('strlen'):
+                # class assumption, decided by provenance rather than by function name: the size is built from strlen()
+                # of C strings only (through +, -, * with constants), in this function or its callers
+                a = T.STRLEN_SIZES
             if a is not None:
                 used.add((k, anchor))
                 chk.assumed('R02.2', k, cons, s['where'], f'{s["bound"]}; {a}')
@@ -160,6 +164,11 @@ def r02_5(chk, P, D):
     clears = {'vorbis_info_clear', 'vorbis_comment_clear', 'vorbis_staticbook_destroy'} | free_info
     for k in D.unp:
         F = P.fn[k]
+        if k in getattr(D, 'unp_helpers', ()):
+            # a file-local helper an unpacker was split into: its failure is cleaned up by its callers, whose own failure
+            # returns are checked with the call counted as "has stored into the object"
+            chk.notes.append(f'R02.5: {k} is a helper of an unpacker (called only by unpackers); its callers clear on failure')
+            continue
         alloc = k2.any_of(*[k2.is_call(a) for a in ('malloc', 'calloc', 'realloc')])
         unpack_calls = set(D.unp)
 
